@@ -228,7 +228,7 @@ def main(tier, seed):
     # ---------------- tensors of homogeneous polynomials with a distinct coefficient for EVERY multi-index of degree d (all mixed monomials,
     # also those with two or more exponents >= 2), at a non-zero integer point: partial^alpha f / alpha! = c_alpha exactly
     import algopy.exact_interpolation as ei
-    sweep = [(1, 4), (2, 1), (2, 2), (2, 3), (2, 4), (2, 5), (3, 2), (3, 3), (3, 4), (4, 2), (4, 3)] + ([(2, 6), (3, 5), (4, 4), (5, 3)] if tier != 'quick' else [])
+    sweep = [(1, 4), (1, 8), (1, 10), (2, 1), (2, 2), (2, 3), (2, 4), (2, 5), (2, 8), (2, 9), (3, 2), (3, 3), (3, 4), (4, 2), (4, 3)] + ([(2, 6), (3, 5), (4, 4), (5, 3)] if tier != 'quick' else [])
     for N, d in sweep:
         mi = [tuple(int(a) for a in al) for al in ei.generate_multi_indices(N, d)]
         coef = [rng.choice([-1, 1]) * (k + 2) for k in range(len(mi))]
